@@ -184,6 +184,10 @@ def call(objs, st, tmp):
         del f.variables[a['name']]
         return None
     if act == 'interpsigma':
+        if a.get('vgtop'):      # relative to another model top
+            return f.interpSigma(np.array(a['vglvls'], dtype='f') / 1000.,
+                                 vgtop=float(a['vgtop']),
+                                 interptype=a['kind'])
         return f.interpSigma(np.array(a['vglvls'], dtype='f') / 1000.,
                              interptype=a['kind'])
     return cd.call(objs, st, tmp)
@@ -248,7 +252,8 @@ def _gen_step(rnd, sh, src, shadows):
                        [1000, 0], reverse=True) if k > 1 else [1000, 0]
         return {'act': 'interpsigma', 'src': src, 'others': [],
                 'args': {'vglvls': edges,
-                         'kind': rnd.choice(['linear', 'conserve'])}}
+                         'kind': rnd.choice(['linear', 'conserve']),
+                         'vgtop': rnd.choice([0, 0, 10000, 2500])}}
     st = cd.gen_step(rnd, sh, src, shadows, focus=act, strict=True)
     # the generic string forms / module-level helpers know nothing of IOAPI
     # metadata (C10/C11 are about the ioapi_base wrappers)
@@ -368,6 +373,15 @@ def run_ioapi_isolation(out, tier):
                 progs.append({'templates': [t, t], 'steps': [
                     {'act': 'delvar', 'src': 1, 'others': [],
                      'args': {'name': nm}}, st]})
+    # attribute arrays (VGLVLS) are shared between a file and its copies: an
+    # operation must not rewrite them in place
+    for t in ('I1', 'I4', 'I6'):
+        for top in (10000, 2500):
+            isig = {'act': 'interpsigma', 'src': 3, 'others': [], 'args': {
+                'vglvls': [1000, 650, 0], 'kind': 'linear', 'vgtop': top}}
+            progs.append({'templates': [t, t], 'steps': [
+                {'act': 'copy', 'src': 1, 'others': [], 'args': {}}, isig,
+                dict(isig)]})
     args = [(950000 + i, p) for i, p in enumerate(progs)]
     res = run_cases(execute, args, timeout=120, per_child=1)
     for a, t in zip(args, res):
